@@ -55,7 +55,13 @@ def profile_eom(tier):
 @st.composite
 def cases(draw, tier, eom=False):
     base = normalise(draw(gen.programs(profile_eom(tier) if eom else profile(tier))))
-    pp = draw(gen_param.parametrized(base, rate=draw(st.sampled_from([5, 15, 30] if eom else [15, 30, 60]))))
+    if eom:
+        # everything up to a point is concrete, variables only afterwards (often only in the last op)
+        n_ops = len(base["ops"])
+        cut = draw(st.integers(max(1, n_ops // 2), max(1, n_ops - 1)))
+        pp = draw(gen_param.parametrized(base, rate=draw(st.sampled_from([30, 60, 90])), concrete_prefix=cut))
+    else:
+        pp = draw(gen_param.parametrized(base, rate=draw(st.sampled_from([15, 30, 60]))))
     reg = pp["register"]
     if reg.get("mappable"):
         n = reg["mappable"]
@@ -226,6 +232,6 @@ CLAUSES = [
            budget={"quick": (16, 200), "thorough": (16, 5000)},
            doc="build(**v) vs direct construction, template immutability, reproducibility, mappable resolution"),
     Clause("build_eom", check, gen=lambda t: cases(t, eom=True),
-           budget={"quick": (16, 60), "thorough": (16, 1500)},
+           budget={"quick": (16, 200), "thorough": (16, 3000)},
            doc="the same for EOM-heavy templates with a concrete prefix (few variables)"),
 ]
